@@ -56,6 +56,9 @@ RECURSIVE PairRow(_, _), PairRows(_, _)
 PairRow(x, ys) == IF ys = <<>> THEN <<>> ELSE (IF x > Head(ys) THEN <<x * Head(ys)>> ELSE <<>>) \o PairRow(x, Tail(ys))
 PairRows(rest, all) == IF rest = <<>> THEN <<>> ELSE PairRow(Head(rest), all) \o PairRows(Tail(rest), all)
 PairProducts(xs) == PairRows(xs, xs)
+\* sum of (index * 10 + element) over the elements other than a, the index counting every element
+RECURSIVE WSumSkip(_, _, _)
+WSumSkip(xs, i, a) == IF xs = <<>> THEN 0 ELSE (IF Head(xs) = a THEN 0 ELSE i * 10 + Head(xs)) + WSumSkip(Tail(xs), i + 1, a)
 RECURSIVE RangeSeq(_, _, _)
 RangeSeq(lo, hi, step) == IF lo >= hi THEN <<>> ELSE <<lo>> \o RangeSeq(lo + step, hi, step)     \* range(lo, hi, step), step > 0
 SumRange(lo, hi, step) == Sum(RangeSeq(lo, hi, step))
@@ -89,7 +92,7 @@ Ops ==
   \cup {[k |-> "sslice", lo |-> r[1], hi |-> r[2]] : r \in {<<1, -1>>, <<0, 2>>, <<1, 3>>}}
   \* tuples, scalars, calls
   \cup {[k |-> "tuple"], [k |-> "tupleidx"], [k |-> "untuple"], [k |-> "ternary"], [k |-> "max"], [k |-> "min"], [k |-> "abs"], [k |-> "addn"], [k |-> "closure"], [k |-> "defarg"],
-        [k |-> "castint"], [k |-> "caststr"], [k |-> "tryraise"], [k |-> "breakcont"], [k |-> "range3"], [k |-> "kwreorder"], [k |-> "kwskip"], [k |-> "swap"], [k |-> "dblcomp"], [k |-> "dblcompcond"], [k |-> "closureloop"], [k |-> "chaincmp"], [k |-> "andor"], [k |-> "range1"], [k |-> "range2"], [k |-> "range2len"], [k |-> "range3ab"], [k |-> "rangecomp1"], [k |-> "rangecomp2"]}
+        [k |-> "castint"], [k |-> "caststr"], [k |-> "tryraise"], [k |-> "breakcont"], [k |-> "range3"], [k |-> "dgetplus"], [k |-> "dgetneg"], [k |-> "dpopdefault"], [k |-> "enumcontinue"], [k |-> "kwreorder"], [k |-> "kwskip"], [k |-> "swap"], [k |-> "dblcomp"], [k |-> "dblcompcond"], [k |-> "closureloop"], [k |-> "chaincmp"], [k |-> "andor"], [k |-> "range1"], [k |-> "range2"], [k |-> "range2len"], [k |-> "range3ab"], [k |-> "rangecomp1"], [k |-> "rangecomp2"]}
 
 Undef == [undef |-> TRUE]
 IsUndef(st) == "undef" \in DOMAIN st
@@ -172,6 +175,10 @@ Apply(op, st) ==
     [] k = "tryraise" -> [st EXCEPT !.n = IF st.a > 0 THEN 5 ELSE st.n]                       \* try: if a > 0: raise ... except: n = 5
     [] k = "breakcont" -> [st EXCEPT !.n = st.n + Sum(SelectSeq(SubSeq(xs, 1, IF Contains(xs, 7) THEN (CHOOSE i \in DOMAIN xs : xs[i] = 7 /\ \A j \in 1..(i - 1) : xs[j] # 7) - 1 ELSE Len(xs)), LAMBDA x : x # st.a))]
     [] k = "range3" -> [st EXCEPT !.n = st.n + 6]                                             \* for i in range(0, 6, 2): n += i
+    [] k = "dgetplus" -> [st EXCEPT !.n = (IF "k" \in DOMAIN d THEN d["k"] ELSE st.b) + 1]
+    [] k = "dgetneg" -> [st EXCEPT !.n = 0 - (IF "jj" \in DOMAIN d THEN d["jj"] ELSE 9) * 2]
+    [] k = "dpopdefault" -> [st EXCEPT !.n = IF "zzz" \in DOMAIN d THEN d["zzz"] ELSE st.b, !.d = DDel(d, "zzz")]
+    [] k = "enumcontinue" -> [st EXCEPT !.n = st.n + WSumSkip(xs, 0, st.a)]
     [] k = "kwreorder" -> [st EXCEPT !.n = st.b * 100 + 2 * 10 + 1]                            \* def kw(gx, gy=5, gz=7): gx*100 + gy*10 + gz ; n = kw(b, gz=1, gy=2)
     [] k = "kwskip" -> [st EXCEPT !.n = st.b * 100 + 5 * 10 + 1]                               \* n = ks(b, gz=1): gy keeps its default
     [] k = "swap" -> IF Len(xs) >= 2 THEN [st EXCEPT !.xs = [xs EXCEPT ![1] = xs[2], ![2] = xs[1]]] ELSE Undef
@@ -266,6 +273,10 @@ Text(op) ==
     [] k = "tryraise" -> Line("try:") \o Line("\tif a > 0:") \o Line("\t\traise RuntimeError('m')") \o Line("except RuntimeError as ex:") \o Line("\tn = 5")
     [] k = "breakcont" -> Line("for bx in xs:") \o Line("\tif bx == a:") \o Line("\t\tcontinue") \o Line("\tif bx == 7:") \o Line("\t\tbreak") \o Line("\tn += bx")
     [] k = "range3" -> Line("for ri in range(0, 6, 2):") \o Line("\tn += ri")
+    [] k = "dgetplus" -> Line("n = d.get('k', b) + 1")
+    [] k = "dgetneg" -> Line("n = -d.get('jj', 9) * 2")
+    [] k = "dpopdefault" -> Line("n = d.pop('zzz', b)")
+    [] k = "enumcontinue" -> Line("for ci, cv in enumerate(xs):") \o Line("\tif cv == a:") \o Line("\t\tcontinue") \o Line("\tn += ci * 10 + cv")
     [] k = "kwreorder" -> Line("def kw(gx: int, gy: int = 5, gz: int = 7) -> int:") \o Line("\treturn gx * 100 + gy * 10 + gz") \o Line("n = kw(b, gz=1, gy=2)")
     [] k = "kwskip" -> Line("def ks(gx: int, gy: int = 5, gz: int = 7) -> int:") \o Line("\treturn gx * 100 + gy * 10 + gz") \o Line("n = ks(b, gz=1)")
     [] k = "swap" -> Line("xs[0], xs[1] = xs[1], xs[0]")
